@@ -91,7 +91,36 @@ def compile_run(ctx, want):
             violations.append({"class": v["kind"] + (":" + v["class"] if "class" in v else ""),
                                "what": f"{v['kind']} " + json.dumps({k: v[k] for k in v if k not in ('replay', 'property', 'kind')})[:200],
                                "replay": v.get("replay", v)})
-        run_driver(ctx, f"{out}/compile.cases", f"{out}/compile.model")
+        run_driver(ctx, f"{out}/compile.cases", f"{out}/compile.model.full")
+        # `shape ok|no`: the model's value-free shape run. Not part of the line diff (the implementation has no such
+        # notion); cross-examined instead: by theorem run_succeeds_on_every_satisfying_input a `shape ok` circuit never
+        # fails structurally, and a `shape no` circuit fails on every input.
+        STRUCT = ("WitnessNotSet", "PublicInputNotSet", "NonPrimitiveOpMissing", "WitnessIdOutOfBounds")
+        mb = split_blocks(read_lines(f"{out}/compile.model.full"), "prog ")
+        ib = split_blocks(read_lines(f"{out}/compile.impl"), "prog ")
+        cbk = split_blocks(read_lines(f"{out}/compile.cases"), "prog ")
+        shape_stats = {"ok": 0, "no": 0, "n/a": 0}
+        for k, blk in enumerate(mb):
+            sh = next((l.split(" ", 1)[1] for l in blk if l.startswith("shape ")), None)
+            if sh is None:
+                continue
+            shape_stats[sh] = shape_stats.get(sh, 0) + 1
+            runs_k = [l for l in (ib[k] if k < len(ib) else []) if l.startswith("run ")]
+            bad = None
+            if sh == "ok" and any(l.startswith("run err") and l.split()[2].startswith(STRUCT) for l in runs_k):
+                bad = "shape ok but the real runner fails structurally"
+            if sh == "no" and any(l.startswith("run ok") for l in runs_k):
+                bad = "shape no but the real runner succeeds"
+            if bad and want == "C02":
+                violations.append({"class": "model-disagreement",
+                                   "what": f"correspondence runShape (Model/RunnerShape) vs CircuitRunner::run no longer checks: {bad}",
+                                   "replay": {"correspondence": "shape run vs real run", "case_block": cbk[k] if k < len(cbk) else []},
+                                   "no_input": True})
+        for kk, vv in shape_stats.items():
+            hist[f"shape.{kk}"] = hist.get(f"shape.{kk}", 0) + vv
+        with open(f"{out}/compile.model", "w") as fh:
+            for l in read_lines(f"{out}/compile.model.full"):
+                fh.write(("shape ?" if l.startswith("shape ") else l) + "\n")
         diffs, nb = diff_blocks(f"{out}/compile.impl", f"{out}/compile.model", f"{out}/compile.cases")
         blocks += nb
         disagreements += len(diffs)
@@ -172,7 +201,7 @@ def roles_run(ctx):
 
 CHECKS = {
     "C02": {
-        "lean_modules": ["P3R.Props.C02", "P3R.Props.C02Run", "P3R.Props.C02Denote", "P3R.Props.C02Complete", "P3R.Lemmas.BuilderSound"],
+        "lean_modules": ["P3R.Props.C02", "P3R.Props.C02Run", "P3R.Props.C02Denote", "P3R.Props.C02Complete", "P3R.Props.C02Shape", "P3R.Lemmas.BuilderSound"],
         "theorems": ["P3R.C02.dedup_rewrite_terminates", "P3R.C02.setW_get", "P3R.C02.setW_mono",
                      "P3R.C02.execAlu_sound",
                      # whole-run soundness: run = ok => every Const/ALU relation holds on the returned witness
@@ -182,6 +211,8 @@ CHECKS = {
                      "P3R.C02.nodeRel_denote", "P3R.C02.run_values_denote", "P3R.C02.compile_ops_eq",
                      # converse: on a satisfying input the run can only fail structurally (never a conflict / division by zero)
                      "P3R.C02.execAlu_good", "P3R.C02.execOp_good", "P3R.C02.execAll_good", "P3R.C02.run_satisfying_no_value_error",
+                     # ... and whether it can fail at all is decided by the value-free shape run (evaluated per program by the driver)
+                     "P3R.C02.execAlu_ref", "P3R.C02.execOp_ref", "P3R.C02.run_refines_shape", "P3R.C02.run_succeeds_on_every_satisfying_input",
                      # builder rule soundness w.r.t. the denotation of Model/SymCompile (proved for C13, same builder model)
                      "P3R.binv_init", "P3R.defineConst_sound", "P3R.add_sound", "P3R.sub_sound", "P3R.mul_sound",
                      "P3R.mulAdd_sound"],
